@@ -12,6 +12,7 @@ import (
 	"verifsim/wire"
 
 	"github.com/google/martian/v3"
+	"github.com/google/martian/v3/har"
 )
 
 // C03 — upstream failures become 502s or clean closes, never a crash, hang or desync.
@@ -69,7 +70,18 @@ func runC03(k *kernel.K) {
 	}
 	proxy, l := newProxyA(k, n)
 	stamp := 0
+	// A quarter of the runs log every exchange with a har.Logger (which reads each body to its end
+	// before the proxy forwards it): whatever the origin does must come out the same way.
+	var hl *har.Logger
+	if k.W.Chance(1, 4) {
+		k.Probe("har_logger_installed")
+		hl = har.NewLogger()
+		proxy.SetRequestModifier(hl)
+	}
 	proxy.SetResponseModifier(martian.ResponseModifierFunc(func(res *http.Response) error {
+		if hl != nil {
+			hl.ModifyResponse(res)
+		}
 		stamp++
 		res.Header.Set("X-Resmod", fmt.Sprint(stamp))
 		return nil
